@@ -18,7 +18,8 @@ import time
 from typing import Dict, List, Optional
 
 from bounded import common as bc
-from bounded.c04 import Violations, eval_item, fc_words, make_item, rc_words, replay_snippet
+from bounded.c04 import (Violations, cut_note, deadline_for, eval_item, fc_words, make_item, pmap_until, rc_words,
+                         replay_snippet)
 from specs import treesem as ts
 
 _ALPHABET = re.compile(r"(?:\[\d+\]|[UOX]|[()]| )*")
@@ -95,11 +96,12 @@ def judge(t: ts.Tree, rc_keys, fc_keys, rw: str, fw: str, r):
     return problem, fce, spec_term, expected
 
 
-def check_trees(ctx, name: str, trees: List[ts.Tree], exhaustive: bool, bound: str) -> None:
+def check_trees(ctx, name: str, trees: List[ts.Tree], exhaustive: bool, bound: str, deadline: float) -> None:
     t0 = time.time()
     bc.configure_inject()
     items = [make_item(t, [(rw, fw) for rw in rc_words(t) for fw in fc_words(t)]) for t in trees]
-    results = bc.pmap(eval_item, items)
+    results = pmap_until(eval_item, items, deadline)
+    exhaustive, bound = exhaustive and len(results) == len(items), bound + cut_note(len(results), len(items))
     viol = Violations(ctx, name)
     evaluations, samples, seen, distinct, distinct_strings, absent, skipped = 0, [], set(), 0, set(), 0, 0
     for t, item, res in zip(trees, items, results):
@@ -159,11 +161,12 @@ def run(ctx, tier: str, seed: int) -> None:
     ts.self_check()
     ctx.trust("A-LARK-RESOLVE (grouping of the rendered text is the tree it was rendered from: C01)")
     rng = random.Random(seed)
+    deadline = deadline_for(tier, time.time())
     leaves = ts.default_leaves()
     by_n = ts.enumerate_trees(3 if tier == "quick" else 4, leaves)
     small = [t for n in (1, 2, 3) for t in by_n[n] if ts.valid(t)]
     check_trees(ctx, "fc-expression/<=3-leaves", small, True,
-                "all valid in-domain trees with <=3 leaves over keys 1,2,3/501,502/901,902")
+                "all valid in-domain trees with <=3 leaves over keys 1,2,3/501,502/901,902", deadline)
     if tier != "quick":
         four = [t for t in by_n[4] if ts.valid(t) and ts.keys_of(t, ts.FC)]
         n = 50000
@@ -172,4 +175,4 @@ def run(ctx, tier: str, seed: int) -> None:
             four = rng.sample(four, n)
         check_trees(ctx, "fc-expression/4-leaves", four, exhaustive,
                     f"{'all' if exhaustive else 'seeded sample of ' + str(n) + ' of the'} valid in-domain trees with 4 "
-                    "leaves and >=1 format-constraint key")
+                    "leaves and >=1 format-constraint key", deadline)
